@@ -36,6 +36,14 @@ theorem c15_inject_appends (f : Func) (idx : Nat) (m : Mode) (t : Tok) (x : Inst
       ∧ f2.body[idx]? = some (grow m x t) :=
   inject_plain f idx m t x hx hm
 
+/-- `add_instr_at(loc, op)` called directly on a function modifier addresses **that** location: the operator is appended to the list of
+    the current mode of the instruction at `loc` — not of the location selected last, not of the function-level mode — and nothing
+    else changes -/
+theorem c15_add_instr_at_addresses_its_location (f f' : Func) (idx : Nat) (t : Tok) (h : apply f (.addInstrAt idx t) = some f') :
+    ∃ x x' sp, f.body[idx]? = some x ∧ x.addInstr t = some (x', sp) ∧ f'.body = f.body.set idx x'
+      ∧ f'.hasSpecial = (f.hasSpecial || sp) ∧ f'.fmode = f.fmode ∧ f'.entry = f.entry ∧ f'.exit = f.exit :=
+  addInstrAt_spec f f' idx t h
+
 /-- removal: `empty_alternate` makes the replacement the empty list -/
 theorem c15_empty_alternate (f : Func) (idx : Nat) (x : Instr) (hx : f.body[idx]? = some x) :
     ∃ f', apply f (.emptyAlt idx) = some f' ∧ f'.body[idx]? = some { x with alt := some [] }
